@@ -207,6 +207,25 @@ static void *thread_cycle(void *arg)
 
 static const char *excl[4] = { "", "epoll-timerfd", "epoll-timerfd epoll", "epoll-timerfd epoll ppoll" };
 
+/* libc keeps the stacks (and the TLS vectors allocated with them) of finished threads in a cache and hands them to later
+ * threads; a thread that is created while the previous one has not quite left yet gets a fresh stack instead, which shows
+ * up as +288 allocated bytes although nothing leaked.  Fill that cache once, with more threads than any cycle runs at a
+ * time, before the reference measurement. */
+static pthread_barrier_t warm_bar;
+static void *warm_thread(void *a) { (void)a; pthread_barrier_wait(&warm_bar); return NULL; }
+static void warm_thread_cache(void)
+{
+	enum { NW = 12 };
+	pthread_attr_t at; pthread_attr_init(&at); pthread_attr_setstacksize(&at, 1 << 20); pthread_setattr_default_np(&at); pthread_attr_destroy(&at);
+	pthread_t t[NW]; int n = 0;
+	pthread_barrier_init(&warm_bar, NULL, NW + 1);
+	for (int i = 0; i < NW; i++) if (pthread_create(&t[n], NULL, warm_thread, NULL) == 0) n++;
+	if (n != NW) vz_inconclusive("pthread_create");
+	pthread_barrier_wait(&warm_bar);
+	for (int i = 0; i < n; i++) pthread_join(t[i], NULL);
+	pthread_barrier_destroy(&warm_bar);
+}
+
 void target_run(void)
 {
 	int method = ch_n(4);
@@ -219,6 +238,7 @@ void target_run(void)
 	vz_hash_u(method);
 	iv_set_fatal_msg_handler(fatal_handler);
 	signal(SIGPIPE, SIG_IGN);
+	warm_thread_cache();
 	unsigned char fd0[128], fd1[128];
 	size_t base_bytes = 0; int base_threads = 0; int nfd0 = 0;
 	for (int k = 0; k < ncyc; k++) {
@@ -240,6 +260,9 @@ void target_run(void)
 		vz_log("  after cycle %d: %zu bytes allocated, %d descriptors, %d threads", k, bytes, nfd1, tc);
 		if (k == 1) { base_bytes = bytes; base_threads = tc; }
 		if (k >= 2) {
+			/* memory of a thread that has just been joined or has detached itself is handed back by libc a little later
+			 * (stack cache, TLS blocks): a difference that goes away by waiting is not a leak, one that stays is */
+			for (int w = 0; w < 200 && bytes != base_bytes; w++) { usleep(1000); bytes = __sanitizer_get_current_allocated_bytes(); }
 			if (bytes != base_bytes) FAILC("memory-growth", "after cycle %d (%s) %zu bytes are allocated, %zu after the warm-up cycles: %+ld bytes per cycle are not released", k, cycle_kind[k] ? "thread" : "main", bytes, base_bytes, (long)bytes - (long)base_bytes);
 			if (tc != base_threads) FAILC("thread-leak", "after cycle %d there are %d threads, %d after the warm-up cycles", k, tc, base_threads);
 		}
